@@ -8,16 +8,15 @@
      ma_bit ma len i   := bit (i mod 8) of octet ma[len - 1 - i / 8]
      cut n bits        := the prefix of bits before the first element >= n
      spec_hopping freq ma len := [cell_alloc[i] | i <- cut |cell_alloc| [i <- 0 .. 8*len-1 | ma_bit ma len i]]
-   Results: Ok rc state | OOB (access outside a buffer) | VlaZero (uint16_t f[len << 3] declared with bound 0: undefined in ISO C).
-   decode = the function under ISO C; decode_gnu = the function as GNU C compiles a zero-length VLA (no storage), equal to decode for len >= 1. *)
+   Results: Ok rc state | OOB (access outside freq[1024], ma[], hopping[] or the local uint16_t f[64]). *)
 From Coq Require Import ZArith List.
 From OBB Require Import Base.Range Gen.MobAllocConst Model.MobAlloc Proofs.MobAllocP.
 Import ListNotations.
 Open Scope Z_scope.
 
-(* the values the source currently has (Gen is regenerated from sysinfo.h / errno.h / gsm48_ie.h on every run) *)
+(* the values the source currently has (Gen is regenerated from sysinfo.h / errno.h / gsm48_ie.h / the declaration of f in sysinfo.c on every run) *)
 Theorem c20_constants :
-  c_FREQ_TYPE_SERV = 1 /\ c_FREQ_TYPE_HOPP = 2 /\ c_FREQ_TABLE_SIZE = 1024 /\ c_HOPPING_SIZE = 64 /\ c_EINVAL = 22 /\ c_FREQ_ENTRY_SIZE = 1.
+  c_FREQ_TYPE_SERV = 1 /\ c_FREQ_TYPE_HOPP = 2 /\ c_FREQ_TABLE_SIZE = 1024 /\ c_HOPPING_SIZE = 64 /\ c_EINVAL = 22 /\ c_FREQ_ENTRY_SIZE = 1 /\ c_F_CAPACITY = 64.
 Proof. exact constants. Qed.
 Print Assumptions c20_constants.
 
@@ -27,10 +26,10 @@ Theorem c20_visit_order : forall freq, Zlength freq = 1024 ->
 Proof. exact visit_faithful. Qed.
 Print Assumptions c20_visit_order.
 
-(* for EVERY table (any subset of ARFCN 0..1023 as cell allocation, any size), every bitmap of 1..8 octets:
+(* for EVERY table (any subset of ARFCN 0..1023 as cell allocation, any size), every bitmap of 0..8 octets:
    return code 0, hopping[0 .. n-1] is exactly the specified list, the rest of the buffer is untouched, hopp_len = n *)
 Theorem c20_spec : forall freq ma len hop hl si4,
-  Zlength freq = 1024 -> 1 <= len <= 8 -> len <= Zlength ma -> Zlength hop = 64 ->
+  Zlength freq = 1024 -> 0 <= len <= 8 -> len <= Zlength ma -> Zlength hop = 64 ->
   exists freq', decode freq ma len hop hl si4 =
     Ok 0 (mkst freq' (spec_hopping freq ma len ++ skipn (length (spec_hopping freq ma len)) hop) (Zlength (spec_hopping freq ma len))).
 Proof. exact spec_thm. Qed.
@@ -45,7 +44,7 @@ Print Assumptions c20_spec_no_cut.
 
 (* never more than 64 entries, no duplicates, only channels of the cell allocation (hence valid ARFCNs) *)
 Theorem c20_subset_bound : forall freq ma len hop hl si4 rc s,
-  Zlength freq = 1024 -> 1 <= len <= 8 -> len <= Zlength ma -> Zlength hop = 64 ->
+  Zlength freq = 1024 -> 0 <= len <= 8 -> len <= Zlength ma -> Zlength hop = 64 ->
   decode freq ma len hop hl si4 = Ok rc s ->
   0 <= s_hlen s <= 64 /\ NoDup (firstn (Z.to_nat (s_hlen s)) (s_hop s)) /\
   forall x, In x (firstn (Z.to_nat (s_hlen s)) (s_hop s)) -> 0 <= x < 1024 /\ serving freq x = true.
@@ -55,7 +54,7 @@ Print Assumptions c20_subset_bound.
 (* the table afterwards: untouched when si4 = 0; otherwise FREQ_TYPE_HOPP (0x02) is set exactly on the returned
    channels and cleared on every other entry, all other mask bits unchanged *)
 Theorem c20_flags : forall freq ma len hop hl si4 rc s,
-  Zlength freq = 1024 -> 1 <= len <= 8 -> len <= Zlength ma -> Zlength hop = 64 ->
+  Zlength freq = 1024 -> 0 <= len <= 8 -> len <= Zlength ma -> Zlength hop = 64 ->
   Forall (fun m => 0 <= m < 256) freq ->
   decode freq ma len hop hl si4 = Ok rc s ->
   Zlength (s_freq s) = 1024 /\
@@ -71,36 +70,25 @@ Theorem c20_long_rejected : forall freq ma len hop hl si4, 8 < len <= 255 ->
 Proof. exact long_thm. Qed.
 Print Assumptions c20_long_rejected.
 
-(* no bitmap of 1..255 octets makes the decoder read or write outside ma[len], freq[1024], hopping[64] or its VLA.
-   The hypothesis 1 <= len is forced on the pinned tree, see c20_len0_refuted *)
+(* no bitmap of 0..255 octets makes the decoder read or write outside ma[len], freq[1024], hopping[64] or its local f[64]
+   (len <= |ma| for the accepted lengths is the caller's obligation: the IE buffer holds len octets) *)
 Theorem c20_in_bounds : forall freq ma len hop hl si4,
-  Zlength freq = 1024 -> Zlength hop = 64 -> 1 <= len <= 255 -> (len <= 8 -> len <= Zlength ma) ->
+  Zlength freq = 1024 -> Zlength hop = 64 -> 0 <= len <= 255 -> (len <= 8 -> len <= Zlength ma) ->
   exists rc s, decode freq ma len hop hl si4 = Ok rc s.
 Proof. exact in_bounds_thm. Qed.
 Print Assumptions c20_in_bounds.
 
 (* a bitmap without set bits yields the empty list *)
 Theorem c20_zero_bitmap : forall freq ma len hop hl si4,
-  Zlength freq = 1024 -> 1 <= len <= 8 -> len <= Zlength ma -> Zlength hop = 64 -> Forall (fun b => b = 0) ma ->
+  Zlength freq = 1024 -> 0 <= len <= 8 -> len <= Zlength ma -> Zlength hop = 64 -> Forall (fun b => b = 0) ma ->
   exists freq', decode freq ma len hop hl si4 = Ok 0 (mkst freq' hop 0).
 Proof. exact zero_bitmap_thm. Qed.
 Print Assumptions c20_zero_bitmap.
 
-(* the empty bitmap (len = 0) yields the empty list - on the pinned tree only under the GNU reading of the zero-length VLA
-   AND for an empty cell allocation; intended statement (after the repair): no hypothesis on cell_alloc, about decode *)
+(* the empty bitmap (len = 0) yields the empty list for EVERY table: return 0, hopping[] untouched, hopp_len = 0,
+   FREQ_TYPE_HOPP (0x02) cleared on every entry iff si4 *)
 Theorem c20_empty : forall freq ma hop hl si4,
-  Zlength freq = 1024 -> cell_alloc freq = [] ->
-  decode_gnu freq ma 0 hop hl si4 = Ok 0 (mkst (if si4 =? 0 then freq else tabula_rasa freq) hop 0).
-Proof. exact empty_gnu_thm. Qed.
+  Zlength freq = 1024 -> Zlength hop = 64 -> Forall (fun m => 0 <= m < 256) freq ->
+  decode freq ma 0 hop hl si4 = Ok 0 (mkst (if si4 =? 0 then freq else map (fun m => Z.land m 253) freq) hop 0).
+Proof. exact empty_thm. Qed.
 Print Assumptions c20_empty.
-
-(* PINNED TREE DEFECT (key c20-len0-vla-overflow): with len = 0 the declaration uint16_t f[len << 3] has bound 0 ... *)
-Theorem c20_len0_refuted : forall freq ma hop hl si4, decode freq ma 0 hop hl si4 = VlaZero.
-Proof. exact len0_vla_thm. Qed.
-Print Assumptions c20_len0_refuted.
-
-(* ... and the compiled code then writes every cell-allocation channel behind that array: any non-empty cell allocation overflows *)
-Theorem c20_len0_overflow_refuted : forall freq ma hop hl si4,
-  Zlength freq = 1024 -> cell_alloc freq <> [] -> decode_gnu freq ma 0 hop hl si4 = OOB.
-Proof. exact len0_overflow_thm. Qed.
-Print Assumptions c20_len0_overflow_refuted.
